@@ -40,6 +40,7 @@ DJV_CMD(bg_norm, "bg.norm")
 // plant2 <presence> <tables> <maj> <min> <pat> <numeric:0|1>  ->  load_database outcome
 //   presence: letters of  X (the directory itself does not exist)  L (<dir>/m.db)
 //             P (<dir>/p.db)  D (<dir>/Database2/m.db)  - (nothing)
+//             E (<dir>/Database2 exists as an empty directory; the Model has no such bit: it must not matter)
 //   tables:   number of sqlite_master entries named 'Information' in every planted m.db:
 //             0 = no Information table, 1 = the table, 2 = the table and a trigger of that name
 //   maj/min/pat: any 64-bit integers, stored in the Information row by a plain sqlite3 connection
@@ -95,6 +96,8 @@ DJV_CMD(plant2, "plant2")
         fs::create_directories(dir + "/Database2");
         mk(dir + "/Database2/m.db");
     }
+    // E: an EMPTY Database2 directory (no m.db in it) — not a library of either layout; what is beside it decides
+    if (pres.find('E') != std::string::npos && pres.find('D') == std::string::npos) fs::create_directories(dir + "/Database2");
     if (pres.find('X') != std::string::npos) dir += "/absent";
     e::engine_schema loaded{};
     auto db = e::load_database(dir, loaded);
